@@ -41,6 +41,34 @@ def conv(vals, container):
     raise KeyError(container)
 
 
+_REUSE = None  # while a dict: container objects (and the score object) of the previous call, refilled in place
+
+
+def cv(name, vals, container):
+    """conv, or - inside a 'reuse' sequence - the object of the previous call refilled in place (lists and numpy arrays)"""
+    global _REUSE
+    new = conv(vals, container)
+    if _REUSE is None:
+        return new
+    old = _REUSE.get(name)
+    if old is not None and type(old) is type(new) and isinstance(new, (list, np.ndarray)) and len(old) == len(new) \
+            and (not isinstance(new, np.ndarray) or old.dtype == new.dtype):
+        old[:] = new
+        return old
+    _REUSE[name] = new
+    return new
+
+
+def mk_sf(case):
+    global _REUSE
+    if _REUSE is not None and "sf" in _REUSE:
+        return _REUSE["sf"]
+    sf = sc.make_sf(case["kind"], case["h"], case["level"])
+    if _REUSE is not None:
+        _REUSE["sf"] = sf
+    return sf
+
+
 def flat(res):
     """canonical list of floats (and strings) out of whatever an entry point returns"""
     import polars as pl
@@ -179,14 +207,16 @@ class C17(Prop):
                              z=[rng.randint(1, cap) for _ in range(n2)], w=None if c["w"] is None else [rng.randint(1, 4) for _ in range(n2)],
                              feature=[rng.randint(0, 3) for _ in range(n2)])
                     c.pop("zcontainer", None)
+            if "rows2d" not in c and c.get("kind") != "logloss" and rng.random() < 0.2:
+                c["reuse"] = True
             yield c
 
     def call(self, case, container):
-        y = conv(case["y"], container)
+        y = cv("y", case["y"], container)
         if case.get("rows2d"):
             z = None
         else:
-            z = conv(case["z"], case.get("zcontainer", container) if container != "np_float64" else container)
+            z = cv("z", case["z"], case.get("zcontainer", container) if container != "np_float64" else container)
         if case.get("rows2d"):
             if container == "np_float64":
                 z = np.column_stack([np.array(case["z"], dtype=float), np.array(case["z2"], dtype=float)])
@@ -194,7 +224,7 @@ class C17(Prop):
                 rows = [[int(a) if float(a).is_integer() else float(a), int(b) if float(b).is_integer() else float(b)]
                         for a, b in zip(case["z"], case["z2"])]  # whole numbers are written as ints (the first row always)
                 z = rows if case["rows2d"] == "list" else tuple(tuple(r) for r in rows)
-        w = None if case["w"] is None else conv(case["w"], container)
+        w = None if case["w"] is None else cv("w", case["w"], container)
         ep = case["stream"]
         if ep == "score" and case["kind"] == "elementary":
             from model_diagnostics.scoring import ElementaryScore
@@ -205,8 +235,8 @@ class C17(Prop):
         if ep == "score":
             if case["kind"] == "logloss":
                 z = np.asarray(case["z"], dtype=float) / (max(case["z"]) + 1)
-                y = conv(case["y"], container)
-            sf = sc.make_sf(case["kind"], case["h"], case["level"])
+                y = cv("y", case["y"], container)
+            sf = mk_sf(case)
             per = np.asarray(sf.score_per_obs(y, z), dtype=float)
             m = float(sf(y, z, w))
             extra = {}
@@ -231,9 +261,9 @@ class C17(Prop):
         if ep == "decompose":
             from model_diagnostics.scoring import decompose
 
-            sf = sc.make_sf(case["kind"], case["h"], case["level"])
+            sf = mk_sf(case)
             return {"vals": flat(decompose(y, z, w, scoring_function=sf))}
-        feat = conv(case["feature"], container)
+        feat = cv("feature", case["feature"], container)
         if ep == "bias":
             from model_diagnostics.calibration import compute_bias
 
@@ -244,12 +274,26 @@ class C17(Prop):
         return {"vals": flat(compute_marginal(y, z, X=X, feature_name=0, weights=w, n_bins=case["n_bins"], bin_method="quantile"))}
 
     def impl(self, case):
+        global _REUSE
         out = {}
         for cont in ("np_float64", case["container"]):
             try:
+                if case.get("reuse") and cont != "np_float64":
+                    # the same container objects (and score object) used for other data first, then refilled in place
+                    rot = lambda l: l if l is None else l[1:] + l[:1]
+                    first = {**case, "y": rot(case["y"]), "z": rot(case["z"]), "w": rot(case["w"])}
+                    if "feature" in case:
+                        first["feature"] = rot(case["feature"])
+                    _REUSE = {}
+                    try:
+                        self.call(first, cont)
+                    except Exception:
+                        pass
                 out[cont] = self.call(case, cont)
             except Exception as e:
                 out[cont] = {"err": exc_class(e), "msg": str(e)[:160]}
+            finally:
+                _REUSE = None
         return out
 
     def model_request(self, case):
